@@ -1103,9 +1103,8 @@ def c12_log_regex(prog: Program, run: Run) -> None:
     # which groups does the code convert with int(..., 16)?
     uses: Dict[str, set] = {}
     for x in walk_no_nested(f.node):
-        if isinstance(x, ast.NamedExpr) and isinstance(x.value, ast.Call) and call_name(
-                x.value) == "match":
-            ch = attr_chain(x.value.func)
+        if isinstance(x, ast.Call) and call_name(x) in ("match", "fullmatch"):
+            ch = attr_chain(x.func)
             if ch and len(ch) == 3 and ch[0] == "self" and ch[1] in regexes:
                 uses.setdefault(ch[1], set())
     groups_read = set()
@@ -1226,14 +1225,47 @@ def c12_log_regex(prog: Program, run: Run) -> None:
                     none_skips.add(n2.id)
             sources.append(("bus", node.id, none_skips, st))
     # a log line that matched one of the frame patterns: the true edge of the test
+    # (or, when the match object is tested against None, the edge on which it is one)
     line_starts = []
+    match_vars = {x.targets[0].id for x in walk_no_nested(f.node)
+                  if isinstance(x, ast.Assign) and isinstance(x.targets[0], ast.Name) and
+                  isinstance(x.value, ast.Call) and call_name(x.value) in ("match", "fullmatch")}
+
+    def _is_match(e):
+        return (isinstance(e, ast.Call) and call_name(e) in ("match", "fullmatch")) or (
+            isinstance(e, ast.Name) and e.id in match_vars) or (
+            isinstance(e, ast.NamedExpr) and _is_match(e.value))
+
     for node in cfg.nodes:
-        if node.kind == "if" and node.expr is not None and any(
-                isinstance(x, ast.Call) and call_name(x) == "match" for x in ast.walk(node.expr)):
-            for s_ in cfg.succ[node.id]:
-                if cfg.label.get((node.id, s_)) == "T":
-                    line_starts.append((node, s_))
-                    sources.append(("line", s_, set(), node.stmt))
+        if node.kind != "if" or node.expr is None:
+            continue
+        e = node.expr
+        edge = var = None
+        if isinstance(e, ast.Compare) and len(e.ops) == 1 and isinstance(
+                e.comparators[0], ast.Constant) and e.comparators[0].value is None and _is_match(
+                    e.left):
+            edge = "F" if isinstance(e.ops[0], (ast.Is, ast.Eq)) else "T"
+            var = e.left
+        elif isinstance(e, ast.UnaryOp) and isinstance(e.op, ast.Not) and _is_match(e.operand):
+            edge, var = "F", e.operand
+        elif any(isinstance(x, ast.Call) and call_name(x) in ("match", "fullmatch")
+                 for x in ast.walk(e)) or _is_match(e):
+            edge, var = "T", e
+        if edge is None:
+            continue
+        skips = set()
+        if isinstance(var, ast.Name):
+            # `if m is None: continue` further down -- no pattern matched this line
+            for n2 in cfg.nodes:
+                if n2.kind == "stmt" and isinstance(n2.stmt, ast.Continue) and any(
+                        pol and norm_test(t) == norm_test(ast.parse(
+                            f"{var.id} is None", mode="eval").body)
+                        for t, pol in cfg.branch_conditions(n2.id)):
+                    skips.add(n2.id)
+        for s_ in cfg.succ[node.id]:
+            if cfg.label.get((node.id, s_)) == edge:
+                line_starts.append((node, s_))
+                sources.append(("line", s_, skips, node.stmt))
     kinds = [k for k, *_ in sources]
     lost = []
     for k, nid, skips, st in sources:
